@@ -268,6 +268,13 @@ func checkC17Decode(r *run, c *FixedCase) (CaseInfo, error) {
 				if d.EstimatedCaptureClockOffset == nil || *d.EstimatedCaptureClockOffset != int64(binary.BigEndian.Uint64(raw[8:])) {
 					return ci, fail(d, err)
 				}
+				// the decoded value belongs to the caller (a relay adds its own clock difference through the
+				// pointer): that must not reach what a later decode of the same bytes yields
+				*d.EstimatedCaptureClockOffset += 0x100000001
+				var again rtp.AbsCaptureTimeExtension
+				if err := again.Unmarshal(raw); err != nil || again.EstimatedCaptureClockOffset == nil || *again.EstimatedCaptureClockOffset != int64(binary.BigEndian.Uint64(raw[8:])) {
+					return ci, failf("AbsCaptureTime.Unmarshal(%s) after the caller changed the offset of an earlier decode through its pointer yields offset %v (err %v)", hx(raw), again.EstimatedCaptureClockOffset, err)
+				}
 			} else if d.EstimatedCaptureClockOffset != nil {
 				if c.HasOffset && *d.EstimatedCaptureClockOffset == c.Offset {
 					if e := r.finding("F22-abscapturetime-stale-offset", "AbsCaptureTime.Unmarshal of %d bytes (no offset field) leaves the receiver's previous EstimatedCaptureClockOffset %d in place", len(raw), c.Offset); e != nil {
@@ -335,6 +342,14 @@ func genFixedCase(t *rapid.T) *FixedCase {
 		c.Raw = rapid.SliceOfN(rapid.Byte(), l, l).Draw(t, "raw")
 		if c.Raw == nil {
 			c.Raw = []byte{}
+		}
+		if rapid.IntRange(0, 2).Draw(t, "commonwire") == 0 {
+			// what is most common on the wire: runs of 0x00 / 0xFF (a zero offset, a zero delay, level 127 ...)
+			fill := rapid.SampledFrom([]byte{0x00, 0x00, 0xFF}).Draw(t, "commonfill")
+			from := rapid.SampledFrom([]int{0, 0, 8, 1}).Draw(t, "commonfrom")
+			for k := from; k < len(c.Raw); k++ {
+				c.Raw[k] = fill
+			}
 		}
 	}
 
@@ -477,7 +492,7 @@ func enumC17(r *run) bool {
 	return true
 }
 
-const ruleC17 = "complete enumeration of the finite value domains (AudioLevel 2x256, TransportCC 2^16, PlayoutDelay boundary rows and out-of-range values in quick / all 2^24 pairs in thorough, AbsSendTime 2^16 spread values in quick / all 2^24 in thorough, every input length 0..size+2 with preloaded receivers) plus rapid-drawn cases for the 64-bit domains (AbsSendTime 64-bit timestamps, AbsCaptureTime timestamps with/without int64 offsets) and random decode inputs of every length; oracle: hand-written bit layouts of the specifications, error and no bytes for out-of-range values, decode independent of previous receiver content, trailing bytes ignored, short input rejected, Unmarshal(Marshal(v)) = v, and Marshal gives the same bytes again after the caller overwrote and appended to the buffer an earlier call returned. Every case is non-trivial (each checks one value or one input against the layout); distinct = enumerated values are distinct by construction, drawn ones by FNV-64 of the JSON case"
+const ruleC17 = "complete enumeration of the finite value domains (AudioLevel 2x256, TransportCC 2^16, PlayoutDelay boundary rows and out-of-range values in quick / all 2^24 pairs in thorough, AbsSendTime 2^16 spread values in quick / all 2^24 in thorough, every input length 0..size+2 with preloaded receivers) plus rapid-drawn cases for the 64-bit domains (AbsSendTime 64-bit timestamps, AbsCaptureTime timestamps with/without int64 offsets) and random decode inputs of every length (a third of them with runs of 0x00/0xFF, e.g. a zero offset field); oracle: hand-written bit layouts of the specifications, error and no bytes for out-of-range values, decode independent of previous receiver content, trailing bytes ignored, short input rejected, Unmarshal(Marshal(v)) = v, and Marshal gives the same bytes again after the caller overwrote and appended to the buffer an earlier call returned; a decoded AbsCaptureTime offset is changed through its pointer and the same bytes decoded again. Every case is non-trivial (each checks one value or one input against the layout); distinct = enumerated values are distinct by construction, drawn ones by FNV-64 of the JSON case"
 
 func TestC17(t *testing.T) {
 	r := begin(t, "C17", "exploration", ruleC17)
